@@ -89,7 +89,7 @@ theorem append_inv (s : St) (new : List (Nat × Row)) (hinv : Inv s) (h : freshF
       · exact hs e he p hp hpe hfr
       · exact absurd hfr ((hf p hp).2 i hi).1
 
-theorem delete_inv (s : St) (p : Expr) (hinv : Inv s) : Inv (s.deleteWhere p) := by
+theorem delete_inv (s : St) (hit : List Nat) (hinv : Inv s) : Inv (s.deleteRows hit) := by
   refine ⟨?_, ?_⟩
   · exact List.Nodup.sublist (List.Sublist.map _ List.filter_sublist) hinv.1
   · intro i hi
@@ -472,17 +472,17 @@ theorem step_inv (s s' : St) (o : Op) (hinv : Inv s) (h : step s o = some s') : 
       cases h
       exact append_inv s new hinv hf
     · simp at h
-  | delete p =>
+  | delete hit =>
     simp only [step, Option.some.injEq] at h
     subst h
-    exact delete_inv s p hinv
-  | update c v p addrs =>
+    exact delete_inv s hit hinv
+  | update c v hit addrs =>
     simp only [step] at h
     split at h
     · rename_i hf
       cases h
       simp only [Bool.and_eq_true] at hf
-      exact append_inv _ _ (delete_inv s p hinv) hf.2
+      exact append_inv _ _ (delete_inv s hit hinv) hf.2
     · simp at h
   | compact olds news m =>
     simp only [step] at h
